@@ -1,6 +1,6 @@
 #!/bin/bash
-# usage: tools_mut.sh <file> <sed-expr> <check-id> [harness...]   (development aid: mutate /repo, run, restore)
+# usage: mut.sh <file> <sed-expr> <check-id> [harness...]   (development aid: mutate /repo, run, restore)
 f=$1; expr=$2; id=$3; shift 3
-cd /repo && cp $f /tmp/mut_backup_$$ && sed -i "$expr" $f && git diff --stat | tail -1
-if [ $# -gt 0 ]; then /verif/bin/vcheck run "$@" 2>&1 | grep -E "^==|FINDING|INCONCL" | head -20; else /verif/bin/vcheck check $id 2>&1 | grep -E "VIOLATION|violated|^check|INCONCL|KNOWN|UNCONF" | head -20; fi
-cp /tmp/mut_backup_$$ /repo/$f && rm /tmp/mut_backup_$$ && cd /repo && git status --short | head -3
+cd /repo && sed -i "$expr" $f && git diff --stat | tail -1
+if [ $# -gt 0 ]; then timeout ${MUT_TIMEOUT:-900} /verif/bin/vcheck run "$@" $MUT_FLAGS 2>&1 | grep -E "^==|FINDING|INCONCL" | cut -c1-300 | head -20; else timeout ${MUT_TIMEOUT:-1800} /verif/bin/vcheck check $id 2>&1 | grep -E "VIOLATION|violated|^check|INCONCL|KNOWN|UNCONF" | cut -c1-300 | head -20; fi
+cd /repo && git checkout -- $f && git status --short | head -3
